@@ -2030,6 +2030,15 @@ func leadingOr(shape []bool) bool {
 	return false
 }
 
+func hasRaw(cs []int) bool {
+	for _, c := range cs {
+		if def(c).fam == "raw" {
+			return true
+		}
+	}
+	return false
+}
+
 func namesTable(cs []int) bool {
 	for _, c := range cs {
 		if f := def(c).fam; f == "model" || f == "table" || strings.HasPrefix(f, "arg-table") {
@@ -2171,6 +2180,11 @@ func genHistory(rt *rapid.T) History {
 	}
 	drawFin := func(handleCalls, chainCalls []int) int {
 		shared := holdsModel(handleCalls) && !holdsModel(chainCalls)
+		// D (domain): a chain that carries raw SQL (Raw) is not finished with a write finisher. gorm does
+		// not build the UPDATE/DELETE/INSERT then but sends the raw text through Exec, and for a
+		// statement that is not DML the SQLite driver reports the row count of whatever DML ran last
+		// on that connection (sqlite3_changes is sticky) - a number that says nothing about gorm.
+		shared = shared || hasRaw(handleCalls) || hasRaw(chainCalls)
 		// now and then a finisher that takes another reusable handle as argument
 		if ids := argIDs(); len(ids) > 0 && rapid.IntRange(0, 9).Draw(rt, "argFin") == 0 {
 			var ks []int
@@ -2319,9 +2333,10 @@ func genHistory(rt *rapid.T) History {
 	// a lasting change made to it by the history is observed even if no generated chain follows
 	if rapid.IntRange(0, 4).Draw(rt, "probes") != 0 {
 		for _, x := range handles[1:] {
-			h.Actions = append(h.Actions,
-				Action{Kind: "direct", H: x.id, Fin: finIndex[`Find(&[]User)`]},
-				Action{Kind: "direct", H: x.id, Fin: finIndex[`Model(&User{}).Updates(map{age:55})`]})
+			h.Actions = append(h.Actions, Action{Kind: "direct", H: x.id, Fin: finIndex[`Find(&[]User)`]})
+			if !hasRaw(x.calls) { // see drawFin: no write finisher on a statement that carries raw SQL
+				h.Actions = append(h.Actions, Action{Kind: "direct", H: x.id, Fin: finIndex[`Model(&User{}).Updates(map{age:55})`]})
+			}
 		}
 	}
 	return h
